@@ -22,14 +22,23 @@ CFG = {
             "untrack(get) / get_untracked / with_untracked / read_untracked / try_get_untracked, set / update / write / try_set; `ctor` = memo "
             "constructors new / new_owning / new_with_compare(!=) of Memo and ArcMemo; `split` = signals made by signal() / arc_signal() "
             "(ReadSignal + WriteSignal); `memoc` (a third of the cases) = leaf memos built with a COARSE comparator "
-            "(a.div_euclid(k) != b.div_euclid(k)), read right after writes that stay inside one bucket",
+            "(a.div_euclid(k) != b.div_euclid(k)), read right after writes that stay inside one bucket; `memoh` = leaf memos with the asymmetric "
+            "high-water comparator (new > old); `mapped` / `maybe` = reads (and for MappedSignal also writes) through MappedSignal / ArcMappedSignal / "
+            "MaybeSignal / MaybeProp next to Signal::from / derive (wrap 1-5), every accessor of the `acc` family through each; `slice` (a sixth of the "
+            "cases) = create_slice / create_read_slice + create_write_slice over an RwSignal holding a two-field struct, `slicea` = asymmetric "
+            "getter/setter pairs; `dropped` = a memo nobody reads is evaluated first and disposed/dropped later (dead entry ahead of live subscribers). "
+            "Instrumentation oracles on every case: each user comparator call gets (previous value | None, freshly computed value), each memo closure "
+            "gets the previous value; a body that re-runs although none of its tracked inputs changed has lost its untracked snapshot",
     "trusted": ["reactive_graph's Rust closures are driven through an interpreter of the same Expr grammar (harness/hx-c01/src/lib.rs)",
                 "lean/LeptosModel/Model/ReactiveDriver.lean maps `acc` to nothing and a leaf `memoc k e` to `memo e` (argument in its header: a comparator is visible to subscribers only)"],
     "modelled": ["MemoInner::{mark_dirty,mark_check,update_if_necessary}", "signal mark_dirty", "Track::track", "SourceSet/SubscriberSet",
                  "Observer / untrack", "ArcMemo::new compare (PartialEq)",
                  "by correspondence only: every Get/With/Read(+Untracked) accessor, Set/Update/Write accessors, ReadSignal/WriteSignal pairs, "
-                 "Memo/ArcMemo::{new,new_owning,new_with_compare}, user comparators coarser than equality (leaf memos)"],
+                 "Memo/ArcMemo::{new,new_owning,new_with_compare}, user comparators coarser than equality or asymmetric (leaf memos), "
+                 "MappedSignal/ArcMappedSignal/MaybeSignal/MaybeProp, computed::{create_slice,create_read_slice,create_write_slice} "
+                 "(struct signal = two field signals, slice = memo over both fields; ReactiveDriver.lean header)"],
     "assumptions": ["i64 arithmetic does not overflow on generated programs (small constants, bounded depth)",
+                    "field nodes of a struct signal are read through slices and `read` ops only (a direct reader would subscribe to one field in the model, to the whole signal in the code)",
                     "memos with a comparator coarser than equality are exercised as leaves only (what their subscribers see is the comparator's business, not part of the property)",
                     "derived signals / MappedSignal / Signal::derive are plain closures without cache: they are from-scratch by construction and are not separately modelled"],
     "manifest": {
